@@ -199,7 +199,8 @@ def run(ctx):
     if ctx.thorough:
         ctx.tlc_must_hold("Lifecycle", "Lifecycle_two.cfg", what="two simulations sharing model and mesh", timeout=1800)
         ctx.tlc_must_hold("Lifecycle", "Lifecycle_cache_thorough.cfg", what="NoStale at MaxVer=2", timeout=3000)
-    for d in ["coord_no_notify", "setmesh_no_observe", "setiter_keeps_maps", "rho_no_update", "bc_size_no_update", "move_keeps_simcache"]:
+        ctx.tlc_must_hold("Lifecycle", "Lifecycle_afterload.cfg", what="NoStale with cache and store actions together, life cycle continued after a load", timeout=3000)
+    for d in ["coord_no_notify", "setmesh_no_observe", "setiter_keeps_maps", "rho_no_update", "bc_size_no_update", "move_keeps_simcache", "load_drops_observers"]:
         ctx.tlc_must_fail("Lifecycle", f"Lifecycle_neg_{d}.cfg")
     num = 1500 if ctx.thorough else 250
     for name in ["Elastic", "Thermal", "MatSimu"]:
